@@ -44,10 +44,19 @@ func applyRemoveVal(skel *Skeleton, orig []byte, op Op, path *Path) error {
 		return fmt.Errorf("%w: REMOVE_VAL target is not an array", ErrTypeMismatch)
 	}
 	for i, item := range cur.Target.ArrayItems {
-		if item.Kind != KindLeaf {
-			continue
+		var raw []byte
+		if item.Kind == KindLeaf {
+			raw = leafBytes(item, orig)
+		} else {
+			// Container element (map / array parsed from the blob): compare its
+			// msgpack encoding, as documented ("first array element whose
+			// msgpack-encoded bytes equal Value").
+			enc, err := item.Serialize(orig)
+			if err != nil {
+				return err
+			}
+			raw = enc
 		}
-		raw := leafBytes(item, orig)
 		if bytes.Equal(raw, op.Value) {
 			cur.Target.ArrayItems = append(cur.Target.ArrayItems[:i], cur.Target.ArrayItems[i+1:]...)
 			return nil
